@@ -212,13 +212,13 @@ class Builder:
                 for j in range(len(items) - 1, i, -1):
                     jt = items[j]
                     if isinstance(jt, tuple) and jt[0] == 'if' and jt[1] == it[1] and not jt[3] and len(jt[2]) == 1 \
-                            and isinstance(jt[2][0], Line) and jt[2][0].kind == 'close' and jt[2][0].minus:
+                            and isinstance(jt[2][0], Line) and jt[2][0].kind == 'close':
                         break
                 else:
                     raise TranslateError(f'{self.cur[0]}:{it[4]}: wrapper block opened under `if {it[1]}` is never closed under the same test')
                 nm, op, cl = it[2][0], it[2][1], jt[2][0]
-                if len(nm.names) != 1 or nm.quoted or (nm.use_ind, nm.tabs) != (op.use_ind, op.tabs) or (cl.use_ind, cl.tabs) != (op.use_ind, op.tabs) \
-                        or nm.minus or op.minus:
+                # indentation of the "{" and "}" lines is whitespace only: the model writes them like the name line
+                if len(nm.names) != 1 or nm.quoted or nm.minus:
                     raise TranslateError(f'{self.cur[0]}:{it[4]}: wrapper block shape')
                 self.check_not_assigned(it[1])
                 self.cnt['opt'] += 1
@@ -243,8 +243,6 @@ class Builder:
         it = items[pos]
         fn = self.cur[0]
         if isinstance(it, Line):
-            if it.minus:
-                raise TranslateError(f'{fn}:{it.lineno}: ind[:-1] outside a wrapper block')
             if it.kind == 'kv':
                 self.cnt['kv'] += 1
                 key = '[' + '; '.join(self.seg(p, sub) for p in it.key) + ']'
@@ -254,9 +252,6 @@ class Builder:
             if it.kind == 'name':
                 if pos + 1 >= len(items) or not isinstance(items[pos + 1], Line) or items[pos + 1].kind != 'open':
                     raise TranslateError(f'{fn}:{it.lineno}: block name not followed by "{{"')
-                op = items[pos + 1]
-                if (op.use_ind, op.tabs) != (it.use_ind, it.tabs):
-                    raise TranslateError(f'{fn}:{it.lineno}: block name and "{{" are indented differently')
                 depth, j = 1, pos + 2
                 while j < len(items):
                     x = items[j]
@@ -269,9 +264,6 @@ class Builder:
                     j += 1
                 else:
                     raise TranslateError(f'{fn}:{it.lineno}: block {it.names} is not closed in the statement list that opens it')
-                cl = items[j]
-                if (cl.use_ind, cl.tabs) != (it.use_ind, it.tabs) or cl.minus:
-                    raise TranslateError(f'{fn}:{cl.lineno}: "}}" of block {it.names} is indented differently')
                 rest = self.seq(items, j + 1, sub, k)
                 names = []
                 for n in it.names:
@@ -449,81 +441,6 @@ GEN = {'VmfProg_gen': gen_prog}
 
 
 # ---------------------------------------------------------------------------------------------- field-level glue
-def _regex_rowreader(pat: str, where: str) -> tuple[str, int, int, int | None]:
-    """prefix + one group of digits: prefix(\\d+) prefix([0-9]) prefix([0-9]{1,2}) ... -> (prefix, skip, min, max)."""
-    m = re.fullmatch(r'([A-Za-z_]*)\((\\d|\[0-9\])(\+|\*|\{(\d+)(,(\d*))?\})?\)', pat)
-    if not m:
-        raise TranslateError(f'{where}: row key pattern {pat!r} not recognised')
-    prefix, quant = m.group(1), m.group(3)
-    if quant is None:
-        lo, hi = 1, 1
-    elif quant == '+':
-        lo, hi = 1, None
-    elif quant == '*':
-        lo, hi = 0, None
-    else:
-        lo = int(m.group(4))
-        hi = lo if m.group(5) is None else (int(m.group(6)) if m.group(6) else None)
-    return prefix, len(prefix), lo, hi
-
-
-def row_reader(funcs: dict[str, ast.FunctionDef], tree: ast.Module) -> tuple[str, int, int, int | None, str]:
-    """How Side._iter_disp_row recognises a row key and computes the row index."""
-    fn = funcs.get('Side._iter_disp_row')
-    if fn is None:
-        raise TranslateError('Side._iter_disp_row not found')
-    loops = [n for n in fn.body if isinstance(n, ast.For)]
-    if len(loops) != 1 or not isinstance(loops[0].target, ast.Name):
-        raise TranslateError('Side._iter_disp_row: a single loop over the rows is expected')
-    var = loops[0].target.id
-    nm = f'{var}.name'
-    body = loops[0].body
-    y_assign = [n for n in ast.walk(loops[0]) if isinstance(n, ast.Assign) and ast.unparse(n.targets[0]) == 'y']
-    if len(y_assign) != 1:
-        raise TranslateError('Side._iter_disp_row: a single assignment of the row index y is expected')
-    yv = y_assign[0].value
-    if not (isinstance(yv, ast.Call) and ast.unparse(yv.func) == 'int' and len(yv.args) == 1 and not yv.keywords):
-        raise TranslateError(f'Side._iter_disp_row: row index is not int(...): {ast.unparse(yv)}')
-    arg = yv.args[0]
-    first = body[0]
-    # form 1: if name.startswith(P): y = int(name[K:]) else: continue
-    if isinstance(first, ast.If) and isinstance(first.test, ast.Call) and ast.unparse(first.test.func) == f'{nm}.startswith' \
-            and len(first.test.args) == 1 and isinstance(first.test.args[0], ast.Constant) and isinstance(first.test.args[0].value, str):
-        prefix = first.test.args[0].value
-        if y_assign[0] not in first.body or not (len(first.orelse) == 1 and isinstance(first.orelse[0], ast.Continue)):
-            raise TranslateError('Side._iter_disp_row: startswith form: index must be computed in the branch, other keys skipped')
-        m = re.fullmatch(re.escape(nm) + r'\[(\d+):\]', ast.unparse(arg))
-        if not m:
-            raise TranslateError(f'Side._iter_disp_row: index expression {ast.unparse(arg)}')
-        return prefix, int(m.group(1)), 1, None, 'startswith'
-    # form 2: match = <re>.fullmatch(name) / re.fullmatch(pat, name); if match is None: continue; y = int(match.group(1))
-    if isinstance(first, ast.Assign) and isinstance(first.value, ast.Call) and len(first.targets) == 1 and isinstance(first.targets[0], ast.Name):
-        mv = first.targets[0].id
-        call = first.value
-        f = ast.unparse(call.func)
-        pat = None
-        if f == 're.fullmatch' and len(call.args) == 2 and ast.unparse(call.args[1]) == nm and isinstance(call.args[0], ast.Constant):
-            pat = call.args[0].value
-        elif f.endswith('.fullmatch') and len(call.args) == 1 and ast.unparse(call.args[0]) == nm:
-            cname = f[:-len('.fullmatch')]
-            for n in tree.body:
-                tg = n.targets[0] if isinstance(n, ast.Assign) else n.target if isinstance(n, ast.AnnAssign) else None
-                if tg is not None and ast.unparse(tg) == cname and isinstance(n.value, ast.Call) and ast.unparse(n.value.func) == 're.compile' \
-                        and len(n.value.args) == 1 and isinstance(n.value.args[0], ast.Constant):
-                    pat = n.value.args[0].value
-        if not isinstance(pat, str):
-            raise TranslateError(f'Side._iter_disp_row: key test {ast.unparse(call)} is not a fullmatch of a literal pattern')
-        guard = body[1] if len(body) > 1 else None
-        if not (isinstance(guard, ast.If) and ast.unparse(guard.test) in (f'{mv} is None', f'not {mv}') and len(guard.body) == 1
-                and isinstance(guard.body[0], ast.Continue) and not guard.orelse):
-            raise TranslateError('Side._iter_disp_row: regex form: `if match is None: continue` expected')
-        if ast.unparse(arg) != f'{mv}.group(1)':
-            raise TranslateError(f'Side._iter_disp_row: index expression {ast.unparse(arg)}')
-        p, k, lo, hi = _regex_rowreader(pat, 'Side._iter_disp_row')
-        return p, k, lo, hi, 'regex'
-    raise TranslateError('Side._iter_disp_row: the way row keys are recognised is not one of the known forms')
-
-
 def row_writers(b: Builder) -> list[tuple[str, str]]:
     """(method, literal prefix) of every written key of the form  prefix{y}  with y the loop variable of a range()."""
     out = []
@@ -621,7 +538,7 @@ def gen_fields() -> tuple[str, dict]:
     tree = ast.parse(src)
     funcs = T._funcs(tree)
     b = analyse()
-    prefix, skip, lo, hi, form = row_reader(funcs, tree)
+    prefix, skip, lo, hi, form = T.row_reader(funcs, tree)
     writers = row_writers(b)
     o = output_seps(tree, funcs)
     fw, fr = T.fixup_index_shape(funcs)
